@@ -648,6 +648,49 @@ def reassigned_before_recorded_backward_probe(ctx):
                              {"module_holds_new": False, "module_holds_forward_time_tensor": mod.a is old}, "the tensor the caller assigned before the backward pass")
 
 
+def debug_mode_dtype_probe(ctx):
+    """debug mode with a module that stores tensors of SEVERAL dtypes (a bfloat16 / float16 / integer table next to float64 tensors): the
+    clone-and-restore of the parameter check puts every tensor back into its own slot (round-6 seed C10/15: the reading traversal
+    and the writing traversal disagreed about which dtypes count as tensors, the restore was written one slot too late)"""
+    import xitorch as xt
+    from xitorch.optimize import rootfinder
+    from xitorch.debug.modes import enable_debug
+
+    class Model(xt.EditableModule):
+        def __init__(self, a, table, offset):
+            self.a = a
+            self.table = table
+            self.offset = offset
+
+        def residual(self, y):
+            return y ** 3 + y - self.a
+
+        def getparamnames(self, methodname, prefix=""):
+            return [prefix + "a"]
+    for tdt in (torch.bfloat16, torch.float16, torch.float32, torch.int64, torch.complex128):
+        for order in ("a-table-offset", "table-a-offset"):
+            a = torch.tensor([1.0, 2.0], dtype=torch.float64, requires_grad=True)
+            table = torch.tensor([0.25, 0.75]).to(tdt) if tdt != torch.int64 else torch.tensor([1, 2])
+            offset = torch.tensor([10.0, 20.0], dtype=torch.float64)
+            m = Model.__new__(Model)
+            if order == "a-table-offset":
+                m.a, m.table, m.offset = a, table, offset
+            else:
+                m.table, m.a, m.offset = table, a, offset
+            ctx.count(("debug-mode-dtypes", str(tdt), order), nontrivial=True)
+            try:
+                with warnings.catch_warnings(), contextlib.redirect_stdout(io.StringIO()):
+                    warnings.simplefilter("ignore")
+                    with enable_debug():
+                        rootfinder(m.residual, torch.zeros(2, dtype=torch.float64))
+            except Exception as e:
+                ctx.fail("oracle", "debug-mode:dtypes:exception", {"table_dtype": str(tdt), "attribute_order": order}, repr(e)[:200], "a result")
+                continue
+            if m.a is not a or m.table is not table or m.offset is not offset:
+                ctx.fail("oracle", "debug-mode:dtypes:module-modified", {"table_dtype": str(tdt), "attribute_order": order},
+                         {"a": m.a is a, "table": m.table is table, "offset": m.offset is offset}, "every attribute is the caller's tensor")
+
+
 def check(ctx):
     cases, meta = [], []
     program_cases(ctx, cases, meta)
@@ -663,6 +706,7 @@ def check(ctx):
     debug_mode_crash_probe(ctx)
     nn_and_editable_order_probe(ctx)
     reassigned_before_recorded_backward_probe(ctx)
+    debug_mode_dtype_probe(ctx)
 
 
 def search(ctx):
